@@ -174,7 +174,9 @@ def parseDeco (d : String) : Option (Ty × Option Nat) :=
   else none
 
 def segsInRange (lo hi : Int) (segs : List (Seg Int)) : Bool :=
-  segs.all fun s => lo ≤ s.a && s.a ≤ s.b && s.b ≤ hi && s.tape.all (fun x => lo ≤ x && x ≤ hi)
+  -- the recorded std values must satisfy the standard's contract `a ≤ x ≤ b` (a tape that does not is
+  -- rejected, which shows up as a difference)
+  segs.all fun s => lo ≤ s.a && s.a ≤ s.b && s.b ≤ hi && s.tape.all (fun x => s.a ≤ x && x ≤ s.b)
 
 def isEng (e : String) : Bool := e = "minstd" || e = "mt"
 
@@ -282,7 +284,7 @@ def opC (ct eng seed elems tok : String) : String :=
   | some (lo, hi), some sd, some es, some (n, tape) =>
     if !isEng eng || !seedOk eng sd || !es.all (fun x => lo ≤ x && x ≤ hi) then "bad-op"
     else if es.isEmpty then containerOp instInt es n [] ()
-    else if tape.length ≠ n || !tape.all (fun x => 0 ≤ x) then "bad-op"
+    else if tape.length ≠ n || !tape.all (fun x => 0 ≤ x && x < Int.ofNat es.length) then "bad-op"
     else containerOp instInt es n tape ()
   | _, _, _, _ => "bad-op"
 
